@@ -7,6 +7,21 @@ python: after a single-document write that raised, documents and indexes are exa
 an insert_many is compared with issuing its inserts one at a time on a twin collection; a failed
 update_many neither adds nor removes a document.
 
+"update_many keeps the documents it had already updated" - at whatever point it fails.  It can
+fail while APPLYING the update to a document, and it can fail while LOOKING FOR the next one: the
+filter is evaluated lazily, document by document, as the walk proceeds, and a filter can raise on
+the data of one document and not of another (`$expr` around an operator that accepts some kinds
+of value only, a disjunction whose malformed part only some documents reach, a condition that
+raises on arrays only).  Four in ten of the multi-document updates (update_many, UpdateMany
+requests of a bulk) carry such a filter (hist.HistGen.lazy_filter), aimed at fields the
+documents hold with values of several kinds.  On python every update_many - failed or not - is
+compared with its walk spelled out on a twin collection (one_document_at_a_time): the filter put
+to each document alone, update_one through the _id of each match, stop at the first raise; so
+every document in front of the failing one holds its update, the failing one and the rest are
+untouched.  The multi updates of a bulk_write go through the same comparison when the batch is
+issued one request at a time.  The Lean model walks the same way (Store.updateLoop), so these
+histories stay in the correspondence.
+
 "Arbitrary prior collection states" includes documents whose stored `_id` is not the value the
 caller gave: datetimes are normalised on the way in (naive UTC, whole milliseconds), bare or
 inside an embedded-document `_id`.  The histories draw such ids (every spelling of two stored
@@ -34,6 +49,7 @@ import mongomock
 import common
 import hist
 import histcheck
+import wire
 from histcheck import state_of
 
 ID = 'C08'
@@ -52,9 +68,17 @@ RULE = ('history = 2-25 generated operations, about 40% of the writes failing (m
         'exception is the known class: return_document=AFTER with a projection measured as '
         'accepted on the matched document before the call and refused on what the write left), '
         'a failed update_many must leave the _id sequence '
-        'and the indexes unchanged, and insert_many must equal one-at-a-time inserts '
+        'and the indexes unchanged; 40% of the multi-document updates (update_many, UpdateMany '
+        'of a bulk) carry a filter that raises on the data of some documents only ($expr around '
+        'an operator partial in the kind of value, guard-or-malformed disjunctions, conditions '
+        'that raise on arrays / on candidates only), and every update_many - also each multi '
+        'update of a bulk_write issued alone - must equal its walk one document at a time on a '
+        'twin collection (filter put to each document alone, update_one by _id, stop at the '
+        'first raise: documents in front of the failing one updated, the rest untouched); '
+        'insert_many must equal one-at-a-time inserts '
         '(twin collection); non-trivial = some single-document write fails in an operator that is '
-        'not the first of its update, or a batch fails in an element that is not the first; '
+        'not the first of its update, or a batch fails in an element that is not the first, or '
+        'an update_many fails behind a document it had updated; '
         'distinct = by hash of the history')
 ASSUMPTIONS = [
     'TTL-free histories (expiry is C09)',
@@ -72,13 +96,14 @@ FAM = ('find_one_and_update', 'find_one_and_replace', 'find_one_and_delete')
 
 def histgen(rng, oids):
     hg = hist.HistGen(rng, oids, weights=dict(
-        insert_one=16, insert_many=12, update_one=26, update_many=8, replace_one=12,
+        insert_one=16, insert_many=12, update_one=24, update_many=11, replace_one=12,
         delete_one=4, delete_many=1, find=0, count=0, distinct=0, create_index=5,
         drop_index=0, drop_indexes=1, drop=1, bulk_write=9, find_one_and_update=5,
         find_one_and_replace=2, find_one_and_delete=2), ttl=False, date_ids='wide')
     hg.ug.malformed = 0.22
     hg.dollar_values = 0.04
     hg.slice_proj = 0.25
+    hg.lazy_filters = 0.4
     return hg
 
 
@@ -142,6 +167,8 @@ def oracle(history, steps):
             # is restored in place - so no document appears, disappears or moves
             fails.append((i, 'trace', 'failed update_many (%s) added / removed / moved documents '
                           'or changed the indexes: %r -> %r' % (st.out[1], prev, cur)))
+        if k == 'update_many':
+            fails.extend(check_update_many(history, steps, i))
         if k == 'insert_many' and isinstance(st.op[1], list) and st.op[1] and \
                 all(isinstance(d, dict) for d in st.op[1]):
             fails.extend(check_batch(history, steps, i))
@@ -230,6 +257,116 @@ def ids_state(state):
                   for d in state[0]), state[1])
 
 
+def matches_alone(doc, flt):
+    """what the filter makes of this document, on the real code: a scratch collection that holds
+    (a copy of) the document alone is searched through it.  True / False, 'raises' when the
+    search raises, None when the scratch collection would not take the document.  With `doc`
+    None the scratch collection stays empty: what the filter makes of no document at all (it is
+    validated all the same)"""
+    c = mongomock.MongoClient().db.scratch
+    try:
+        if doc is not None:
+            c.insert_one(copy.deepcopy(doc))
+    except Exception:  # pylint: disable=broad-except
+        return None
+    try:
+        return c.find_one(copy.deepcopy(flt)) is not None
+    except Exception:  # pylint: disable=broad-except
+        return 'raises'
+
+
+def one_document_at_a_time(history, i, oids):
+    """history[:i] on a twin collection, then the update_many at `i` spelled out on the real code:
+    the documents are visited in the order the collection shows them; the filter is put to each
+    one ALONE (matches_alone); a document it matches is updated by update_one through its own
+    _id; the first document on which the filter or the update raises ends the walk (update_one is
+    atomic - the clause on single-document writes - so that document is as it was).  An update
+    that matched nothing and did not fail is re-issued as update_one with the caller's filter
+    when it upserts.
+    → (whether the walk ended in a failure, the frozen state it leaves, the number of documents
+    updated before the end, position of the document that ended it) or None (nothing measured)"""
+    op = history[i]
+    flt, upd, upsert = op[1], op[2], op[3]
+    pr = hist.PyRunner()
+    try:
+        for o in history[:i]:
+            pr.apply(o[1] if o[0] == 'noobs' else o)
+        try:
+            docs = list(pr.coll.find({}))
+        except Exception:  # pylint: disable=broad-except
+            return None
+        failed, done, at = False, 0, None
+        try:
+            # an update specification that is refused in itself (unknown operator …) is refused
+            # before any document is looked for: the same update aimed at no document
+            pr.coll.update_one({'_id': 'no-such-document'}, copy.deepcopy(upd))
+        except Exception:  # pylint: disable=broad-except
+            failed = True
+        if not docs and not failed:
+            # the filter is validated even when there is nothing to look at
+            failed = matches_alone(None, flt) == 'raises'
+        for j, d in enumerate([] if failed else docs):
+            m = matches_alone(d, flt)
+            if m is None:
+                return None
+            if m == 'raises':
+                failed, at = True, j
+                break
+            if not m:
+                continue
+            try:
+                pr.coll.update_one({'_id': copy.deepcopy(d['_id'])}, copy.deepcopy(upd))
+                done += 1
+            except Exception:  # pylint: disable=broad-except
+                failed, at = True, j
+                break
+        if not failed and not done and upsert:
+            try:
+                pr.coll.update_one(copy.deepcopy(flt), copy.deepcopy(upd), upsert=True)
+            except Exception:  # pylint: disable=broad-except
+                failed = True
+        obs = pr.observe()
+    finally:
+        pr.close()
+    try:
+        tokens = hist.renumber_fresh(wire.encs(obs, oids).split())
+    except wire.Unencodable:
+        return None
+    return failed, state_of(histcheck.decode_tokens(tokens, 0)[0]), done, at
+
+
+def check_update_many(history, steps, i):
+    """update_many works at document granularity: it equals its walk spelled out one document at
+    a time (one_document_at_a_time).  When it raises part-way - in the FILTER, evaluated document
+    by document as the walk proceeds, or in the update - every document in front of the failing
+    one holds its update, the failing one and everything behind it are as they were"""
+    st = steps[i]
+    op = st.op
+    if not (isinstance(op[1], dict) and isinstance(op[2], dict)):
+        return []
+    exp = one_document_at_a_time(history, i, st.oids)
+    if exp is None:
+        return []
+    failed, state, done, at = exp
+    if isinstance(st.extra, dict):
+        st.extra['walk'] = {'failed': failed, 'updated_before': done, 'ended_by_document': at}
+    got = histcheck.renumber_state(state_of(st.obs))
+    want = histcheck.renumber_state(state)
+    if (st.out[0] == 'err') != failed:
+        return [(i, 'update-many-outcome', 'update_many %s, its walk one document at a time %s '
+                 '(document #%r of the collection ends it, %d updated before)'
+                 % ('raised %s' % st.out[1] if st.out[0] == 'err' else 'succeeded',
+                    'fails' if failed else 'succeeds', at, done))]
+    if got != want:
+        return [(i, 'update-many-granularity' if failed else 'update-many-state',
+                 '%s update_many (%s) left %r; one document at a time (%d document(s) updated%s) '
+                 'leaves %r' % ('failed' if failed else 'successful',
+                                st.out[1] if failed else st.out[1:], got, done,
+                                ', document #%r of the collection raises' % at if failed else '',
+                                want))]
+    return []
+
+
 def check_batch(history, steps, i, bulk=False):
     """insert_many / bulk_write ≡ the operations one at a time (ordered: up to the first
     failure; unordered: every operation that succeeds on its own)"""
@@ -254,6 +391,16 @@ def check_batch(history, steps, i, bulk=False):
     got_state = histcheck.renumber_state(state_of(st.obs))
     expected_state = histcheck.renumber_state(expected_state)
     fails = []
+    if bulk:
+        # a multi update of the batch is an update_many on the twin: document granularity there
+        th = twin_history(history, i)
+        for j, t in enumerate(twin[i:]):
+            if t.op[0] == 'update_many':
+                fails.extend((i, l, 'request %d of the bulk_write issued alone: %s' % (j, w))
+                             for (_, l, w) in check_update_many(th, twin, i + j))
+            if t.out[0] == 'err' and (ordered or t.out[1] not in ('DuplicateKeyError',
+                                                                    'WriteError')):
+                break
     # generated ObjectIds differ between the two runs only in numbering, which canon renumbers
     if got_state != expected_state:
         fails.append((i, 'batch-state', '%s(ordered=%s) left %r, one-at-a-time leaves %r'
@@ -284,6 +431,8 @@ def nontrivial(history, steps):
             idx = [w.get('index') for w in st.out[2].get('writeErrors', [])]
             if idx and idx[0] > 0:
                 return True
+        if k == 'update_many' and ((st.extra or {}).get('walk') or {}).get('updated_before'):
+            return True
     return False
 
 
